@@ -49,6 +49,10 @@ MAP = [  # subject substring -> properties whose quick check must catch the reve
     ('IVectorAppend, setIVectorValue and getIVectorValue', ['C20']),
     ('Python binding of setTensorValue', ['C20']),
     ('a seeded generator whose state reached zero', ['C06']),
+    ('started every column scan at row 1', ['C11']),
+    ('replaced the running extreme by any value within 1e-3', ['C11']),
+    ('SpearmanCorrelMatrix matched values to their rank within 1e-3', ['C11']),
+    ('PearsonCorrelMatrix reported 0 whenever', ['C11']),
 ]
 
 
